@@ -8,7 +8,7 @@
    to alltasks, the markers that ran, and the __jug__hasbarrier__ flag.  Nothing is assumed about
    [st] (any subset of results, any values) or about [p] unless stated. *)
 From Coq Require Import List PArith ZArith Bool.
-From JugV Require Import Model.Loader Proofs.LoaderFacts.
+From JugV Require Import Model.Loader Proofs.LoaderFacts Proofs.CompoundFacts.
 Import ListNotations.
 
 (* ------------------------------------------------------------------ (a) what the loader lets through *)
@@ -83,6 +83,22 @@ Print Assumptions C14_reload_loop.
 Theorem C14_functionalb_sound : forall L, functionalb L = true -> functional L.
 Proof. exact functionalb_sound. Qed.
 Print Assumptions C14_functionalb_sound.
+
+(* the same loop for a worker that cannot take the locks in [locks] - held by other workers, or marked failed;
+   a task whose function raises under --keep-going is in the same position - : with no such task it is the
+   loop above; otherwise those tasks get no result from this worker (a result they have is left alone) and
+   nothing the start store holds is lost.  What is loaded in each phase is [load st p] as before: barriers
+   and bvalue look at the store only. *)
+Theorem C14_reload_loop_no_locks : forall (fuel : nat) (st : store) (p : jprog),
+  run_phases_l [] fuel st p = run_phases fuel st p.
+Proof. exact run_phases_l_nil. Qed.
+Print Assumptions C14_reload_loop_no_locks.
+
+Theorem C14_reload_loop_locked_tasks : forall (locks : list tid) (fuel : nat) (st : store) (p : jprog),
+  (forall u, is_locked locks u = true -> lookup (fst (run_phases_l locks fuel st p)) u = lookup st u) /\
+  extends st (fst (run_phases_l locks fuel st p)).
+Proof. exact run_phases_l_locked. Qed.
+Print Assumptions C14_reload_loop_locked_tasks.
 
 (* ------------------------------------------------------------------ (c) a closed barrier and `jug check` *)
 (* [wf [] p]: Python scoping - an argument of a task, of bvalue or of a compound refers to a Task
